@@ -96,6 +96,9 @@ def build_sessions(rng, n):
                 sc = c03.build(rng, otype, 'valid')
             except Exception:
                 continue
+            sc['flags'] = STANDARD
+            if not c03.ref_verdict(sc)[0]:
+                continue          # only spends that validate: a failing step ends the judged part of a session
             tx, idx = sc['tx'], sc['idx']
             ssig = tx.vin[idx][2]
             wit = tx.wit[idx] if tx.wit else []
